@@ -145,3 +145,71 @@ func (t *T) update(d int64) {
 }
 
 var errTooBig = errors.New("too big")
+
+// --- constructs added for the guard / boundary anchors (switch, case conditions, call arguments,
+// composite-literal fields, arbitrary expressions, narrow unsigned bit operations, enum types of
+// another package, len of an array type, big.Int package values, byte-string prefixes)
+
+type Digest [q.DigestLen]byte
+
+const digestLen = len(Digest{})
+
+var (
+	order, _  = new(big.Int).SetString("ff", 16)
+	halfOrder = new(big.Int).Div(order, big.NewInt(2))
+	prefix    = []byte("pre")
+)
+
+type S struct {
+	round uint32
+	step  q.Step
+}
+
+type pair struct{ lo, hi int64 }
+
+func (s *S) enter(round uint32) {
+	if round < s.round || (s.round == round && q.StepWait <= s.step) {
+		return
+	}
+	s.skip(int64(round - s.round))
+}
+
+func (s *S) skip(n int64) {}
+
+func classify(b byte) (int, uint64) {
+	switch {
+	case b < 0x80:
+		return 0, 0
+	case b < 0xB8:
+		return 1, uint64(b - 0x80)
+	default:
+		return 2, uint64(b-0xB7) + 1
+	}
+}
+
+func dispatch(st q.Step, n int) int {
+	switch st {
+	case q.StepNew, q.StepWait:
+		n++
+	case q.StepDone:
+		n = n * 2
+	}
+	return n
+}
+
+func flagByte(t byte, odd bool, first byte) byte {
+	f := t << 5
+	if odd {
+		f |= 1 << 4
+		f |= first
+	}
+	return f ^ 0 | f&0xff>>0
+}
+
+func inOrder(s *big.Int) bool {
+	return s.Cmp(halfOrder) <= 0 && s.Cmp(order) < 0
+}
+
+func mk(a int64) pair {
+	return pair{lo: a - 1, hi: a*2 + 1}
+}
